@@ -547,6 +547,8 @@ func runEntCase(c EntCase) *vkit.Outcome {
 		fr := &res[i]
 		if fr.canaryMsg != "" {
 			o.Failf(P, "caller-buffer-outside-record-altered", "record #%d %q (max_event_size %d cut_off %v): %s", i, r.bytes(), c.Max, c.CutOff, fr.canaryMsg)
+			// the same clause of C12 ("never alters bytes of the caller's buffer outside the line"), reached through Pipeline.In
+			o.Failf("C12", "pipeline-in:caller-buffer-outside-record-altered", "record #%d %q (decoder %s, max_event_size %d cut_off %v): %s", i, r.bytes(), c.Decoder, c.Max, c.CutOff, fr.canaryMsg)
 			return o
 		}
 		var firstSig, firstMsg string
@@ -596,13 +598,13 @@ func runEntCase(c EntCase) *vkit.Outcome {
 		}
 	}
 	if nontrivial {
-		o.Nontrivial(P)
+		o.Nontrivial("")
 	}
 	o.Class("decoder=" + c.Decoder)
 	return o
 }
 
-var propEnt = vkit.NewProp([]string{P}, "c20entrance", genEntCase, runEntCase)
+var propEnt = vkit.NewProp([]string{P, "C12"}, "c20entrance", genEntCase, runEntCase)
 
 func TestC20Entrance(t *testing.T) { propEnt.CrashFile = true; propEnt.Check(t) }
 
